@@ -106,6 +106,13 @@ func (e *Engine) buildUnit(name string) (res *UnitResult) {
 		return
 	}
 	fc.run(fn.Blocks[0], st, nil, false)
+	var rg []Term
+	for _, r := range fc.rets {
+		if !r.st.dead {
+			rg = append(rg, r.st.guard)
+		}
+	}
+	vc.cover = mkOr(rg...)
 	// postconditions at every return
 	for _, r := range fc.rets {
 		if r.st.dead {
@@ -131,6 +138,17 @@ func (e *Engine) buildUnit(name string) (res *UnitResult) {
 			rt = resT.At(0).Type()
 		}
 		fc.bindResults(env, c, fn, SV{Typ: rt, T: flat.T}, rt)
+		for _, gv := range c.GhostVars {
+			t := fc.ghostGet(r.st, "var."+gv.Name, gv.Sort, "0")
+			switch gv.Sort {
+			case SBool:
+				env.vars[gv.Name] = mathBool(t)
+			case SArrInt:
+				env.vars[gv.Name] = SV{Typ: tIntArray, T: []Term{t}}
+			default:
+				env.vars[gv.Name] = mathInt(t)
+			}
+		}
 		for i, en := range c.Ensures {
 			en := en
 			label := en.Label
